@@ -225,6 +225,7 @@ pub fn run(ctx: &mut Ctx, c07: bool) {
             Eval { label: "tree", func: "ev_tree".into(), role: "corr" },
             Eval { label: "bytes", func: "ev_bytes".into(), role: "corr" },
             Eval { label: "total", func: "or_total".into(), role: "oracle" },
+            Eval { label: "hyp", func: "in_hyp_sigma".into(), role: "hyp" },
         ]
     } else {
         vec![Eval { label: "tree", func: "ev_tree".into(), role: "corr" }, Eval { label: "verdict", func: "or_verdict".into(), role: "oracle" }]
